@@ -3,7 +3,8 @@
    `complete` selects the code path (true: cache-complete list fast path, false: generator path).
    spec_* are list-level definitions (Python list indexing / slicing, filter, hd, last, firstn). *)
 From Coq Require Import ZArith List Bool.
-From V Require Import rcache.PyList rcache.RCacheModel rcache.RQueryModel rcache.RQuerySpec rcache.RQueryThm.
+From V Require Import rcache.PyList rcache.RCacheModel rcache.RCacheSpec rcache.RQueryModel rcache.RQuerySpec
+  rcache.RQueryThm rcache.RCacheThm rcache.RCacheQuery.
 Import ListNotations.
 Open Scope Z_scope.
 
@@ -53,6 +54,16 @@ Theorem C12_cached_path_eq_gen_path : forall l, incr l ->
   (forall dt c inc, xafter true l dt c inc = xafter false l dt c inc).
 Proof. exact cached_path_eq_gen_path. Qed.
 Print Assumptions C12_cached_path_eq_gen_path.
+
+(* answers do not depend on which iterators / queries ran before or run concurrently on a cached rule:
+   in every state reachable under ANY schedule of the C11 transition system, a finished operation
+   returned C12's list-level answer (op_list_spec: L, L[:k], L[k], len(L), x in L, filter / last / first) *)
+Theorem C12_query_order_irrelevant : forall seq ops sched t th,
+  incr seq ->
+  nth_error (thr (reach seq ops sched)) t = Some th -> t_pc th = PDone ->
+  t_res th = Some (op_list_spec (t_op th) seq).
+Proof. exact query_order_irrelevant. Qed.
+Print Assumptions C12_query_order_irrelevant.
 
 (* the hypothesis `incr l` is satisfiable and decidable, and it is needed: *)
 Theorem C12_incr_nonvacuous : incr [1; 3; 7] /\ (forall l, incrb l = true -> incr l).
